@@ -9,15 +9,17 @@ pub fn prop() -> Prop {
     Prop::new(
         "C20",
         "Validating without a schema is a relaxation",
-        "Cases: C17's stream of schema + executable document pairs (valid by construction, then 0-2 mutators, many of \
-         them validity preserving); only pairs that apollo validates against the schema are evaluated, the others are \
-         counted as skipped. Oracle (implication): ast::Document::parse(text) + validate_standalone_executable() must \
+        "Cases: C17's generator of schema + executable document pairs (valid by construction, then 0-2 validity-preserving \
+         mutations; one case in six goes through C17's rule mutators instead); only pairs that BOTH apollo \
+         (ExecutableDocument::parse_and_validate) and the reference validator (refmodel::execvalid) accept are evaluated, \
+         the others are counted as skipped. Oracle (implication): ast::Document::parse(text) + validate_standalone_executable() must \
          be Ok. One signature per diagnostic kind reported without a schema. Non-trivial: the document uses a \
          directive or a variable; distinct by the two texts.",
     )
-    .random("pairs", check, |t| if t == Tier::Quick { 100_000 } else { 1_500_000 }, |t| if t == Tier::Quick { 700 } else { 1000 })
+    .random("pairs", check, |t| if t == Tier::Quick { 80_000 } else { 1_600_000 }, |t| if t == Tier::Quick { 700 } else { 1000 })
     .text(check_text)
-    .assumptions(&["the antecedent is apollo's own verdict with the schema (ExecutableDocument::parse_and_validate is Ok); the property is an implication between two apollo entry points"])
+    .case_timeout(120)
+    .assumptions(&["the antecedent is apollo's own verdict with the schema (ExecutableDocument::parse_and_validate is Ok) confirmed by the reference validator (Valid); the property is an implication between two apollo entry points"])
 }
 
 pub fn check_pair(schema_text: &str, doc_text: &str, label: &str, ctx: &mut Ctx) -> Outcome {
@@ -29,6 +31,14 @@ pub fn check_pair(schema_text: &str, doc_text: &str, label: &str, ctx: &mut Ctx)
         let _ = label;
         ctx.class("invalid-with-schema");
         return ctx.skip("document does not validate against the schema");
+    }
+    // the antecedent "validates against the schema" must hold for the reference too
+    match c17::reference_verdict(schema_text, doc_text) {
+        Ok((crate::refmodel::execvalid::Verdict::Valid, _)) => {}
+        _ => {
+            ctx.class("apollo-valid|reference-not-valid");
+            return ctx.skip("apollo validates the document but the reference does not call it valid");
+        }
     }
     let uses_dir = doc_text.contains('@');
     let uses_var = doc_text.contains('$');
@@ -74,7 +84,10 @@ pub fn check_text(text: &str, ctx: &mut Ctx) -> Outcome {
 
 pub fn check(bytes: &[u8], ctx: &mut Ctx) -> Outcome {
     let mut c = Choices::new(bytes);
-    let case = c17::gen_case(&mut c, true);
+    // mostly valid documents (validity-preserving mutations); one case in six goes through the
+    // rule mutators so that documents accepted through a disagreement with the reference are seen
+    let mode = if c.bool(43) { c17::Mode::Rules } else { c17::Mode::Neutral };
+    let case = c17::gen_case_mode(&mut c, mode);
     let schema_text = print_document(&case.schema_doc);
     let doc_text = print_document(&case.doc);
     let label = if case.mutators.is_empty() { "none".to_string() } else { case.mutators.join(",") };
